@@ -17,7 +17,7 @@ CFG = {
             "read, compared with the model and with the denotation of the AST. resp_ser: responses built through "
             "the public API (every status, headers, all 256 Set-Cookie attribute combinations, with and without "
             "Content-Length) serialised, judged by the independent strict recogniser Spec.checkSerialization, then "
-            "parsed back. Non-trivial = every case (each has a status line, framing and at least the generated "
+            "parsed back. client: redirect chains of 0..5 hops over {301,302,307} with relative and absolute Location (with and without query), followed or not, against a scripted origin server on 127.0.0.1:80; final response and the request lines seen are compared. Non-trivial = every case (each has a status line, framing and at least the generated "
             "fields); distinct = distinct case line.",
     "exhaustive": True,
     "violation_text": "the response parser did not return what was sent, or the serialiser's bytes are not a valid "
@@ -27,8 +27,9 @@ CFG = {
                      "std BufReader modelled by Model/IO.lean; u16/usize parsing modelled in Model/Bytes.lean",
                      "Generated/Tables.lean is produced by running StatusCode::try_from over all 65 536 codes"],
     "assumptions": ["reads never return 0 bytes before end of stream",
-                    "the HTTP client's socket handling (connect, one connection per hop) is not modelled; the redirect-following "
-                    "clause is not yet exercised"],
+                    "the HTTP client's socket handling (connect, DNS, one connection per hop) is not modelled: the network is a "
+                    "parameter of clientSend; the client cases need 127.0.0.1:80 (the URL parser cannot express another port) "
+                    "and are skipped, with a note in the evidence, when it cannot be bound"],
     "design_ref": "6.7",
     "level_text": "Table theorems re-checked against the running code on every run (status round trip, injectivity, "
                   "registered reason phrases, header-name spelling round trip); response_parse_segmentation_independent "
@@ -39,7 +40,9 @@ CFG = {
                   "proves the unrestricted statement false); parse_serialize (+ every read segmentation) for responses with "
                   "the added Content-Length or no body; parse_serialize_close_delimited; chunked_decode: every division of a "
                   "body into non-empty chunks, any valid hex spelling of the sizes, Transfer-Encoding at any position, parses "
-                  "to the plain body with its Content-Length, under every read segmentation.",
+                  "to the plain body with its Content-Length, under every read segmentation. client_follows_redirects: for a "
+                  "redirect chain of ANY length the model of ClientRequest::send makes exactly the chain's requests and returns "
+                  "the final response; no_follow_returns_first.",
     "level_note": "Trusted: Lean kernel; Model/Response.lean tied to response.rs/status.rs/cookie.rs by the differential run. "
                   "Known finding: CRLF appended after a non-empty body (test-pinned).",
     "technique": "Lean 4 table theorems over regenerated tables + simulation proof + differential correspondence with a strict recogniser",
